@@ -50,8 +50,11 @@ def _install_postconditions():
         v = rgetattr(self.module, self.attribute).detach()
         _POST["norm_evals"] += 1
         order, scale, dim = _CONF.get(id(self), (self.order, self.scale, self.dim))
-        nb = torch.linalg.vector_norm(before.double(), ord=order, dim=dim, keepdim=True)
-        na = torch.linalg.vector_norm(v.double(), ord=order, dim=dim, keepdim=True)
+        wide = lambda t: t.to(torch.complex128) if t.is_complex() else t.double()
+        nb = torch.linalg.vector_norm(wide(before), ord=order, dim=dim, keepdim=True)
+        na = torch.linalg.vector_norm(wide(v), ord=order, dim=dim, keepdim=True)
+        if isinstance(scale, complex):
+            _POST["complex_scale_evals"] = _POST.get("complex_scale_evals", 0) + 1
         target = abs(scale)
         zero = nb == 0
         ok_nonzero = torch.isclose(na[~zero], torch.full_like(na[~zero], target), rtol=1e-5, atol=1e-7)
@@ -150,6 +153,11 @@ def generate(ctx):
                       # epsilon only guards the division for (near-)zero vectors: every vector drawn here is either exactly
                       # zero or has a norm far above it, so the post-condition is the same for all of these
                       "epsilon": rng.choice([None, None, 1e-6, 1e-3, 0.05]), "tiny_row": rng.random() < 0.3})
+            if target in ("plain", "buffer", "nested3") and rng.random() < 0.3:
+                # documented scale type: float | complex; the post-condition speaks of the MAGNITUDE of the scale
+                d["scale_imag"] = rng.choice([4.0, -1.0, 2.0, 0.5])
+                if rng.random() < 0.3:
+                    d["scale"] = 0.0      # purely imaginary
         yield d
 
 
@@ -386,9 +394,10 @@ def _post(ctx, desc):
             dim = desc["dim"]
             if desc.get("epsilon"):
                 kw["epsilon"] = desc["epsilon"]
-            hk = Normalization(mod, attr, desc["order"], desc["scale"], tuple(dim) if isinstance(dim, list) else dim, **kw)
+            scale = complex(desc["scale"], desc["scale_imag"]) if desc.get("scale_imag") else desc["scale"]
+            hk = Normalization(mod, attr, desc["order"], scale, tuple(dim) if isinstance(dim, list) else dim, **kw)
             _CONF.clear()
-            _CONF[id(hk)] = (desc["order"], desc["scale"], tuple(dim) if isinstance(dim, list) else dim)
+            _CONF[id(hk)] = (desc["order"], scale, tuple(dim) if isinstance(dim, list) else dim)
         hk.register()
     except Exception as e:  # noqa: BLE001
         return ctx.violation(ctx.exc_signature(e, f"post.{desc['which']}.construct.{target}"), f"{type(e).__name__}: {str(e)[:140]}", desc)
@@ -396,6 +405,7 @@ def _post(ctx, desc):
              f"p{desc['order']}/s{desc['scale']}/dim{desc['dim']}/zero{int(bool(desc.get('zero_row')))}") + f"/{'pre' if desc['pre'] else 'post'}")
     nv0 = len(_POST["violations"])
     e0 = _POST["clamp_evals"] + _POST["norm_evals"]
+    ce0 = _POST.get("complex_scale_evals", 0)
     from inferno._internal import rgetattr
     for i in range(desc["nops"]):
         try:
@@ -461,6 +471,8 @@ def _post(ctx, desc):
     n = _POST["clamp_evals"] + _POST["norm_evals"] - e0
     ctx.count("postcondition_evaluations", n)
     ctx.count(f"postcondition_evaluations.{desc['which']}", n)
+    if _POST.get("complex_scale_evals", 0) > ce0:
+        ctx.count("postcondition_evaluations.complex_scale", _POST["complex_scale_evals"] - ce0)
     hk.deregister()
     if _nhooks(mod) != 0 and target in ("plain", "buffer", "nested3"):
         return ctx.violation("post.deregister.dangling_handle", "handle left after deregister", desc)
